@@ -5,7 +5,7 @@
    every subscriber its Range yields.  "Every position, repeated, both, from several callers" = every label
    sequence: nothing restricts who issues a CloseSub, when, or how often.  The panics of the Go runtime
    (send on a closed channel, close of a closed channel) are transitions of the model that set [panicked]. *)
-From Coq Require Import List Arith Bool Lia.
+From Coq Require Import List Arith Bool Lia ZArith.
 From TC.Model Require Import Pub.
 From TC.Proofs Require Import PubInv PubC06 PubC15 PubC10 PubSim.
 Import ListNotations.
@@ -85,7 +85,7 @@ End C10.
    by two closers while a Publish call is still visiting; the parked delivery is dropped, the buffered message
    stays readable, then "closed"; s1 is not affected. *)
 Definition ex10 : list (label nat) :=
-  [ Subscribe 1 (fun _ => true) 50 false false; Subscribe 0 (fun _ => true) 50 false false;
+  [ Subscribe 1 (fun _ => true) 50%Z false false; Subscribe 0 (fun _ => true) 50%Z false false;
     PubBegin 1; Visit 0 0; Visit 0 1; PubEnd 0; Enter 0 0; Enter 0 1; Deliver 0 0;
     PubBegin 2; Visit 1 0; Enter 1 0;
     CloseSub 0; CloseSub 0;                 (* the second closer finds nothing *)
